@@ -127,6 +127,26 @@ fn panic_class(p: &str) -> String {
 
 /// I-C04 on one build result. `truth` is the file system the build is known to have seen
 /// (fresh builds, synced session states); None switches the location clauses off.
+/// Lines of a text (without their terminators) under a given set of line terminators, longest
+/// match first.
+fn split_lines<'a>(content: &'a str, terms: &[&str]) -> Vec<&'a str> {
+    let mut out = vec![];
+    let mut start = 0;
+    let mut i = 0;
+    while i < content.len() {
+        let rest = &content[i..];
+        if let Some(t) = terms.iter().find(|t| rest.starts_with(**t)) {
+            out.push(&content[start..i]);
+            i += t.len();
+            start = i;
+        } else {
+            i += rest.chars().next().map(|c| c.len_utf8()).unwrap_or(1);
+        }
+    }
+    out.push(&content[start..]);
+    out
+}
+
 fn check_c04(cx: &mut Ctx, t: &Triple, truth: Option<(&Fs, &BTreeSet<String>)>, who: &str, op_index: usize) {
     cx.out.stats.c04_builds_checked += 1;
     if let Some(p) = &t.panic {
@@ -186,18 +206,31 @@ fn check_c04(cx: &mut Ctx, t: &Triple, truth: Option<(&Fs, &BTreeSet<String>)>, 
                 cx.violate("C04", "diagnostic-names-file-not-in-project".into(), json!({"who": who, "diagnostic": d}), op_index);
                 continue;
             };
-            let lines: Vec<&str> = content.split('\n').collect();
-            let ok_line = |l: usize| l >= 1 && l <= lines.len();
+            // "inside the file" under some usual notion of a line: LF only (what most tools count),
+            // or every ECMAScript line terminator (CR, LF, CRLF, and with them LS / PS), which is
+            // what the parser's own source map counts; a range is bad when no model admits it
+            let models: [&[&str]; 3] = [&["\n"], &["\r\n", "\n", "\r"], &["\r\n", "\n", "\r", "\u{2028}", "\u{2029}"]];
             let mut bad = None;
-            if !ok_line(l0) || !ok_line(l1) {
-                bad = Some("line-out-of-file");
-            } else if (l0, c0) > (l1, c1) {
-                bad = Some("range-reversed");
-            } else if c0 > lines[l0 - 1].chars().count() || c1 > lines[l1 - 1].chars().count() {
-                bad = Some("column-out-of-line");
+            let mut n_lines = 0;
+            for terms in models {
+                let lines = split_lines(content, terms);
+                n_lines = lines.len();
+                let ok_line = |l: usize| l >= 1 && l <= lines.len();
+                bad = if !ok_line(l0) || !ok_line(l1) {
+                    Some("line-out-of-file")
+                } else if (l0, c0) > (l1, c1) {
+                    Some("range-reversed")
+                } else if c0 > lines[l0 - 1].chars().count() || c1 > lines[l1 - 1].chars().count() {
+                    Some("column-out-of-line")
+                } else {
+                    None
+                };
+                if bad.is_none() {
+                    break;
+                }
             }
             if let Some(b) = bad {
-                cx.violate("C04", format!("bad-location:{}", b), json!({"who": who, "diagnostic": d, "file_lines": lines.len()}), op_index);
+                cx.violate("C04", format!("bad-location:{}", b), json!({"who": who, "diagnostic": d, "file_lines": n_lines}), op_index);
             }
         } else if let Some(u) = d.get("UnknownFile") {
             let file = u["current_file"].as_str().unwrap_or("");
